@@ -41,6 +41,9 @@ static unsigned pick(uint8_t b) {
     return t[b % 64];
 }
 
+struct Run;
+static unsigned pick_smart(uint8_t b, Run &r);
+
 struct Count {
     uint64_t tokens;
 };
@@ -334,6 +337,29 @@ struct Run {
     }
 };
 
+// protocol-aware picker (used by half of the cases) so that scripts reach deep cursor states instead of
+// dying in the first STATE/WRONG_TYPE error; the other half stays fully arbitrary.
+static unsigned pick_smart(uint8_t b, Run &r) {
+    binson_parser *p = r.pb.p;
+    if (!r.inited_ok || p->error_flags != BINSON_ERROR_NONE || !r.shadow_valid) return pick(b);
+    unsigned m = b % 32;
+    if (r.shadow.empty()) {
+        if (r.root_left) return m < 8 ? A_VERIFY : m < 16 ? A_RESET : pick(b);
+        return m < 26 ? (r.arr ? A_INTO_ARR : A_INTO_OBJ) : pick(b);
+    }
+    binson_type t = binson_parser_get_type(p);
+    bool in_obj = r.shadow.back() == 'o';
+    if ((t == BINSON_TYPE_OBJECT || t == BINSON_TYPE_ARRAY) && m < 12) return t == BINSON_TYPE_OBJECT ? A_INTO_OBJ : A_INTO_ARR;
+    if ((t == BINSON_TYPE_OBJECT || t == BINSON_TYPE_ARRAY) && m < 16) return m & 1 ? A_GET_RAW : A_TO_WRITER;
+    if (m < 22) return A_NEXT;
+    if (m < 24) return in_obj ? A_LEAVE_OBJ : A_LEAVE_ARR;
+    if (m < 26) return in_obj ? (m & 1 ? A_FIELD_LEN : A_FIELD) : A_NEXT;
+    if (m == 26) return in_obj && t != BINSON_TYPE_NONE ? A_GET_NAME : A_GET_TYPE;
+    if (m == 27) return t == BINSON_TYPE_STRING ? A_GET_STR : t == BINSON_TYPE_BYTES ? A_GET_BYTES : t == BINSON_TYPE_INTEGER ? A_GET_INT : A_GET_DBL;
+    if (m == 28) return A_STR_EQ;
+    return pick(b);
+}
+
 static DocOpts opts(bool big) {
     DocOpts o;
     o.cfg.max_nodes = 30;
@@ -350,6 +376,7 @@ struct Decoded {
     Bytes prefill;
     uint8_t state_fill;
     bool first_arr;
+    bool smart;
 };
 
 static Decoded decode(Src &s) {
@@ -362,6 +389,7 @@ static Decoded decode(Src &s) {
     if ((h & 12) == 12) d.prefill = Bytes{0xAA};
     d.c = decode_doc(s, opts(big));
     d.first_arr = d.c.array_root;
+    d.smart = (h & 0x80) != 0;
     return d;
 }
 
@@ -373,7 +401,10 @@ static void execute(Run &r, Decoded &d, Src &s) {
     binson_writer_init(&r.w, r.wbuf.p, r.wbuf.n);
     // the script always starts with an init (the only defined way to start)
     r.call(d.first_arr ? A_INIT_ARR : A_INIT_OBJ, s);
-    for (unsigned i = 0; i < 64 && !s.dry(); i++) r.call(pick(s.u8()), s);
+    for (unsigned i = 0; i < 64 && !s.dry(); i++) {
+        uint8_t b = s.u8();
+        r.call(d.smart ? pick_smart(b, r) : pick(b), s);
+    }
     if (!r.pb.input_intact()) r.fail("any", "input-modified", "the input buffer was modified");
 }
 
@@ -403,6 +434,7 @@ static void run_case(Src &s) {
     if (r.calls_after_latch) st.label("calls-after-error");
     if (r.latch_err) st.label(std::string("error:") + err_name(r.latch_err));
     if (!d.prefill.empty()) st.label("struct-prefilled");
+    st.label(d.smart ? "script:protocol-aware" : "script:arbitrary");
     if (d.c.doc.size() > 4096) st.label("doc>4KiB");
     st.label(fmt("mode:%u", d.c.mode));
     const char *cl = nt ? "non-trivial" : "trivial";
